@@ -9,6 +9,8 @@ focus = sys.argv[3] if len(sys.argv) > 3 and sys.argv[3] != '-' else None
 hard = len(sys.argv) > 4 and sys.argv[4] == 'hard'
 props = {json.loads(l)['id']: json.loads(l) for l in open('/verif/properties.jsonl')}
 existing = [d.split('-', 1)[1].replace('-', ' ') for d in os.listdir('/verif/seeded') if d.split('-')[0] == pid]
+others = sorted(d.split('-', 1)[1].replace('-', ' ') for d in os.listdir('/verif/seeded') if d.split('-')[0] != pid)
+repaired = subprocess.run(['git', '-C', '/repo', 'log', '--format=%s', '--grep=^fix:'], capture_output=True, text=True).stdout.strip().splitlines()
 wt = f'/tmp/mut-{mid}'
 subprocess.run(['git', '-C', '/repo', 'worktree', 'add', '--detach', wt, 'HEAD'], check=True, capture_output=True)
 p = props[pid]
@@ -29,7 +31,7 @@ Your task: make ONE small, realistic change to the code under src/ - the kind of
  (3) the breakage needs something specific to manifest (a particular data layout, interleaving, size, crash point or sequence of calls) - not a change that fails on every operation.
 Code inside `#[cfg(raindb_verif)]` blocks is verification instrumentation: leave it alone and do not rely on it.
 {focus_txt}{hard_txt}
-It must be a DIFFERENT mechanism from these earlier changes for the same property: {existing}. Also do NOT touch these already-used spots: the level-0 widening in VersionSet::pick_compaction, the position of set_prev_sequence_number in DB::apply_changes, is_base_level_for_key, the tombstone/hidden-entry drop rule in the compaction loop.
+It must be a DIFFERENT mechanism from these earlier changes for the same property: {existing}. Other people have already made the following changes for other properties - do not repeat any of them either (each phrase names one change): {others}. And do not simply revert one of these earlier repairs of the code base: {repaired}. Also do NOT touch these already-used spots: the level-0 widening in VersionSet::pick_compaction, the position of set_prev_sequence_number in DB::apply_changes, is_base_level_for_key, the tombstone/hidden-entry drop rule in the compaction loop.
 
 Then DEMONSTRATE it: write an integration test `tests/demo_{mid.lower()}.rs` that uses the public API (e.g. `DbOptions` with the in-memory filesystem `raindb::fs::InMemoryFileSystem`, small `max_memtable_size`/`max_file_size`) and FAILS with your change and PASSES without it. If the breakage needs a thread interleaving or an I/O fault that a plain test cannot force, wrap the filesystem (the `raindb::fs::FileSystem` trait is public) or, as a last resort, add temporary sleeps/hooks to src/ for the demonstration only - keep those in a separate diff `OUT/demo_hooks.diff` that is NOT part of the change itself. Verify both directions yourself (apply/revert your change with `git diff -- src > x.diff; git apply -R x.diff; ...; git apply x.diff`).
 
